@@ -16,6 +16,17 @@ def gen_case(rng, i=None, pruning=False, allow_none=True):
         alph = S.ALL
         pools = ['all']
     xs = S.multiset(rng, alph=alph)
+    odd = rng.random() < 0.08
+    if odd:
+        # "odd one out": many strings of one class plus one or two look-alikes of a neighbouring class
+        # (ASCII digits vs other decimal digits vs digit-likes; ASCII letters vs other letters), which a
+        # sampled first pass is likely to leave out
+        major, minor = rng.choice([(S.DIGITS, S.UDIGIT), (S.DIGITS, S.DIGITLIKE), (S.UDIGIT, S.DIGITS), (S.LETTERS, S.UL),
+                                   (S.LETTERS, S.LETTERNUM), (S.DIGITS, S.LETTERS), (list('abc'), list('_-.'))])
+        xs = [S.rstr(rng, major, 1, 5) for _ in range(rng.choice([8, 13, 20]))]
+        for _ in range(rng.randint(1, 2)):
+            xs.insert(rng.randrange(len(xs) + 1), S.rstr(rng, minor, 1, 4))
+        pools = ['odd-one-out']
     if allow_none and rng.random() < 0.1:
         xs.insert(rng.randrange(len(xs) + 1), None)
     if i is not None and i < 24:
@@ -25,7 +36,7 @@ def gen_case(rng, i=None, pruning=False, allow_none=True):
     else:
         dialect = rng.choice(DIALECTS)
         form = rng.choice(['list', 'list', 'dict', 'series', 'serieslist'])
-        sampled = rng.random() < 0.45
+        sampled = rng.random() < 0.45 or odd
     kw = dict(tag=rng.random() < 0.3, strip=rng.random() < 0.2, remove_empties=rng.random() < 0.3,
               extra_letters=rng.choice(EXTRAS), variableLengthFrags=rng.random() < 0.3, dialect=dialect)
     size = None
@@ -38,6 +49,9 @@ def gen_case(rng, i=None, pruning=False, allow_none=True):
         if rng.random() < 0.3:
             size['max_punc_in_group'] = rng.choice([1, 2, 5])
         seed = rng.choice([None, 1, 2, 12345])
+        if odd:
+            size['do_all'] = rng.choice([2, 4, 5])
+            size['do_all_exceptions'] = rng.choice([2, 4, 5])
         if len(xs) < 6:
             xs = xs + S.multiset(rng, n=12, alph=alph)
     elif rng.random() < 0.1:
